@@ -1,7 +1,7 @@
 (* C12: advertised size = encoder size = decoder minimum; non-zero iff the client dispatches.
    All functions are the GENERATED ones; the statement is a complete sweep of the 65536 wire identifiers. *)
 From Coq Require Import ZArith List String Bool Lia.
-Require Import Base.GoInt Base.Sweep Spec.LayoutKinds Spec.LayoutSpec Gen.Funcs Gen.Layouts Tie.LayoutsAgree.
+Require Import Base.GoInt Base.Sweep Spec.LayoutKinds Spec.LayoutSpec Gen.Funcs Gen.Layouts Spec.LayoutCheck Tie.LayoutsAgree.
 Import ListNotations.
 Open Scope Z_scope.
 
